@@ -78,6 +78,38 @@ theorem lineToks_rpc (n : Nat) (name : String) (sI aI : Bool) (fI : String) (rI 
   rw [lexL_rpcTy sO aO fO rO _ l hfO hrO, lexL_space, lexL_sym '{' (by decide), lexL_sym '}' (by decide), lexL_nil]
   simp [toP]
 
+/-- the tokens of the first line of a method with options -/
+def rpcOpenToks (name : String) (sI aI : Bool) (fI : String) (rI : List String) (sO aO : Bool) (fO : String)
+    (rO : List String) (l : Nat) : List PTok :=
+  T (.ident "rpc") l :: T (.ident name) l :: T (.sym '(') l ::
+    (rpcTyToks sI aI fI rI l ++ T (.sym ')') l :: T (.ident "returns") l :: T (.sym '(') l ::
+      (rpcTyToks sO aO fO rO l ++ [T (.sym ')') l, T (.sym '{') l]))
+
+theorem lineToks_rpcOpen (n : Nat) (name : String) (sI aI : Bool) (fI : String) (rI : List String) (sO aO : Bool)
+    (fO : String) (rO : List String) (l : Nat) (hn : IsIdent name) (hfI : IsIdent fI) (hrI : ∀ r ∈ rI, IsIdent r)
+    (hfO : IsIdent fO) (hrO : ∀ r ∈ rO, IsIdent r) :
+    lineToks (rpcOpenLine n name (rpcTyStr sI aI fI rI) (rpcTyStr sO aO fO rO)) l =
+      rpcOpenToks name sI aI fI rI sO aO fO rO l := by
+  unfold lineToks rpcOpenLine ind rpcOpenToks
+  simp only [String.toList_append, String.toList_ofList, List.append_assoc]
+  rw [lexL_spaces]
+  have h1 : ("rpc ".toList : List Char) = "rpc".toList ++ [' '] := by decide
+  have h2 : ("(".toList : List Char) = ['('] := by decide
+  have h3 : (") returns (".toList : List Char) = ')' :: ' ' :: ("returns".toList ++ [' ', '(']) := by decide
+  have h4 : (")".toList : List Char) = [')'] := by decide
+  have h5 : (" {".toList : List Char) = [' ', '{'] := by decide
+  have h6 : ("".toList : List Char) = [] := by decide
+  rw [h1, h2, h3, h4, h5, h6]
+  simp only [List.append_assoc, List.cons_append, List.nil_append, List.append_nil]
+  rw [lexL_ident "rpc" isIdent_rpc _ (stopsI_space _), lexL_space, lexL_ident name hn _ (stopsI_paren _),
+    lexL_sym '(' (by decide)]
+  simp only [List.filterMap_cons, toP]
+  rw [lexL_rpcTy sI aI fI rI _ l hfI hrI, lexL_space, lexL_ident "returns" isIdent_returns _ (stopsI_space _), lexL_space,
+    lexL_sym '(' (by decide)]
+  simp only [List.filterMap_cons, toP]
+  rw [lexL_rpcTy sO aO fO rO _ l hfO hrO, lexL_space, lexL_sym '{' (by decide), lexL_nil]
+  simp [toP]
+
 /-! ## the parser on a method -/
 
 theorem rpcType_toks (st abs : Bool) (first : String) (rest : List String) (l : Nat) (more : List PTok)
@@ -135,12 +167,55 @@ theorem serviceBody_rpc (F : Nat) (name : String) (sI aI : Bool) (fI : String) (
   simp [mkLoc, Cm.none, trailOf, mkOpts, groupOpts, unlocateShared, lineLoc]
 
 
+theorem rpcBody_close' (F l : Nat) (more : List PTok) (os : List RawOpt) :
+    rpcBody (F + 1) (T (.sym '}') l :: more) os = some (os, l, more) := by
+  simp [rpcBody, T]
+
+theorem rb_opts (s : Nat) : ∀ (chunks : List (List PTok)), ChunksOk chunks → ∀ (F : Nat) (more : List PTok)
+    (os0 : List RawOpt),
+    rpcBody (F + chunks.length) (sh s chunks.flatten ++ more) os0 =
+      rpcBody F more (os0 ++ (rawsOf chunks).map (RawOpt.shift s))
+  | [], _, F, more, os0 => by simp [rawsOf]
+  | c :: cs, h, F, more, os0 => by
+    obtain ⟨r, hr⟩ := h c (by simp)
+    obtain ⟨l, cm, tl, rfl⟩ := chunk_head hr
+    have hfr := optionStmt_frame s (sh s cs.flatten ++ more) _ _ _ hr
+    simp only [sh_nil, List.nil_append] at hfr
+    simp only [List.flatten_cons, sh_append, List.append_assoc, List.length_cons]
+    rw [← Nat.add_assoc]
+    simp only [sh_cons, PTok.shift, List.cons_append] at hfr ⊢
+    simp only [rpcBody, hfr]
+    rw [rb_opts s cs (fun c' hc' => h c' (by simp [hc'])) F more _, rawsOf_cons hr, List.map_cons, List.append_assoc]
+    rfl
+
+/-- a method with a body in a service body -/
+theorem serviceBody_rpcOpen (F : Nat) (name : String) (sI aI : Bool) (fI : String) (rI : List String) (sO aO : Bool)
+    (fO : String) (rO : List String) (l : Nat) (r3 : List PTok) (os : List RawOpt) (ms : List Item)
+    (hfI : IsIdent fI) (hfO : IsIdent fO)
+    (hkI : sI = false → aI = false → fI ≠ "stream") (hkO : sO = false → aO = false → fO ≠ "stream")
+    (ros : List RawOpt) (le : Nat) (r4 : List PTok) (hb : rpcBody (F + 1) r3 [] = some (ros, le, r4)) :
+    serviceBody (F + 2) (rpcOpenToks name sI aI fI rI sO aO fO rO l ++ r3) os ms =
+      serviceBody (F + 1) r4 os
+        (ms ++ [.rpc (mkLoc l le Cm.none (trailOf r3)) 0 name (rpcTyStr sI aI fI rI) (rpcTyStr sO aO fO rO) (mkOpts l ros)]) := by
+  unfold rpcOpenToks
+  simp only [List.cons_append, List.append_assoc, List.nil_append]
+  have h1 := rpcType_toks sI aI fI rI l
+    (T (.ident "returns") l :: T (.sym '(') l :: (rpcTyToks sO aO fO rO l ++
+      (T (.sym ')') l :: T (.sym '{') l :: r3))) hfI hkI
+  have h2 := rpcType_toks sO aO fO rO l (T (.sym '{') l :: r3) hfO hkO
+  simp only [T] at h1 h2 ⊢
+  rw [serviceBody, h1]
+  simp only []
+  rw [h2]
+  simp only []
+  rw [hb]
+
 /-! ## services in the files of the theorem -/
 
-/-- a method without options and comments -/
+/-- a method without comments (statement options allowed) -/
 def SimpleRpc : Item → Prop
   | .rpc l _ name inT outT os =>
-    l.noComments ∧ os = [] ∧ IsIdent name ∧
+    l.noComments ∧ RpcOpts os ∧ IsIdent name ∧
     (∃ (st abs : Bool) (first : String) (rest : List String), IsIdent first ∧ (∀ r ∈ rest, IsIdent r) ∧
       inT = rpcTyStr st abs first rest ∧ (st = false → abs = false → first ≠ "stream")) ∧
     (∃ (st abs : Bool) (first : String) (rest : List String), IsIdent first ∧ (∀ r ∈ rest, IsIdent r) ∧
@@ -192,26 +267,69 @@ theorem sb_opts (s : Nat) : ∀ (chunks : List (List PTok)), ChunksOk chunks →
     rw [sb_opts s cs (fun c' hc' => h c' (by simp [hc'])) F more _ ms, rawsOf_cons hr, List.map_cons, List.append_assoc]
     rfl
 
+theorem trailOf_rpcOpts (os : List SOpt) (s : Nat) (rest : List PTok) (hr : trailOf rest = "") :
+    trailOf (sh s (rpcToks0 os) ++ rest) = "" := by
+  have : toksOf (rpcCmds0 os) false (1 + s) = sh s (rpcToks0 os) := toksOf_shift (rpcCmds0 os) false 1 s
+  rw [← this]
+  exact trailOf_toksOf _ _ _ _ hr
+
+theorem mkOpts_rpc (os : List SOpt) (s : Nat) :
+    mkOpts s ((rawsOf (rpcChunks os)).map (RawOpt.shift s)) = rdRpcOpts os s := by
+  have := mkOpts_shift 0 s (rpcRaws0 os)
+  rw [Nat.zero_add] at this
+  exact this
+
 theorem sb_rpcs : ∀ (es : List Item), SimpleRpcs es → ∀ (n : Nat) (first : Bool) (le0 lt L : Nat) (g : Bool) (F : Nat)
-    (os : List RawOpt) (ms : List Item) (rest : List PTok),
+    (os : List RawOpt) (ms : List Item) (rest : List PTok), trailOf rest = "" → (∀ e ∈ es, need1 e ≤ F) →
     serviceBody ((F + 1) + es.length) (toksOf (elemsCmds n es first le0 lt) g L ++ rest) os ms =
       serviceBody (F + 1) rest os (ms ++ (rdKids es first le0 lt L g).1)
-  | [], _, n, first, le0, lt, L, g, F, os, ms, rest => by simp [elemsCmds, toksOf_nil, rdKids]
-  | .rpc l i name inT outT opts :: r, h, n, first, le0, lt, L, g, F, os, ms, rest => by
+  | [], _, n, first, le0, lt, L, g, F, os, ms, rest, _, _ => by simp [elemsCmds, toksOf_nil, rdKids]
+  | .rpc l i name inT outT opts :: r, h, n, first, le0, lt, L, g, F, os, ms, rest, hrest, hF => by
     obtain ⟨⟨hl, ho, hname, ⟨sI, aI, fI, rI, hfI, hrI, hin, hkI⟩, ⟨sO, aO, fO, rO, hfO, hrO, hout, hkO⟩⟩, hr⟩ := h
-    subst ho hin hout
-    rw [toksOf_elems_cons n (Item.rpc l i name (rpcTyStr sI aI fI rI) (rpcTyStr sO aO fO rO) []) r first le0 lt g L ⟨hl, rfl⟩]
-    simp only [itemToks, List.length_cons, List.append_assoc]
-    rw [lineToks_rpc n name sI aI fI rI sO aO fO rO _ hname hfI hrI hfO hrO]
-    have e : F + 1 + (r.length + 1) = (F + r.length) + 2 := by omega
-    rw [e, serviceBody_rpc (F + r.length) name sI aI fI rI sO aO fO rO _ _ os ms hfI hfO hkI hkO]
-    have e2 : F + r.length + 1 = (F + 1) + r.length := by omega
-    rw [e2, sb_rpcs r hr n false _ _ _ _ F os _ rest]
-    simp only [rdKids, rdItem, List.append_assoc, List.cons_append, List.nil_append, startLine, gapBefore,
-      Item.typeOrder, Item.gapEnder]
-    rfl
-  | .field _ :: _, h, _, _, _, _, _, _, _, _, _, _ => h.1.elim
-  | .block _ _ _ _ _ _ _ :: _, h, _, _, _, _, _, _, _, _, _, _ => h.1.elim
+    subst hin hout
+    have hF' : ∀ e ∈ r, need1 e ≤ F := fun e he => hF e (by simp [he])
+    have hF0 := hF _ (List.mem_cons_self)
+    simp only [need1] at hF0
+    rw [toksOf_elems_cons n (Item.rpc l i name (rpcTyStr sI aI fI rI) (rpcTyStr sO aO fO rO) opts) r first le0 lt g L ⟨hl, ho⟩]
+    by_cases hemp : opts.isEmpty = true
+    · have hnil : opts = [] := by simpa using hemp
+      subst hnil
+      simp only [itemToks, List.isEmpty_nil, if_true, List.length_cons, List.append_assoc]
+      rw [lineToks_rpc n name sI aI fI rI sO aO fO rO _ hname hfI hrI hfO hrO]
+      have e : F + 1 + (r.length + 1) = (F + r.length) + 2 := by omega
+      rw [e, serviceBody_rpc (F + r.length) name sI aI fI rI sO aO fO rO _ _ os ms hfI hfO hkI hkO]
+      have e2 : F + r.length + 1 = (F + 1) + r.length := by omega
+      rw [e2, sb_rpcs r hr n false _ _ _ _ F os _ rest hrest hF']
+      simp only [rdKids, rdItem, List.isEmpty_nil, if_true, List.append_assoc, List.cons_append, List.nil_append, startLine,
+        gapBefore, Item.typeOrder, Item.gapEnder]
+      rfl
+    · have hne : opts.isEmpty = false := by simpa using hemp
+      simp only [itemToks, hne, Bool.false_eq_true, if_false, List.length_cons, List.append_assoc]
+      rw [lineToks_rpcOpen n name sI aI fI rI sO aO fO rO _ hname hfI hrI hfO hrO, lineToks_close]
+      simp only [List.cons_append, List.nil_append]
+      have e : F + 1 + (r.length + 1) = (F + r.length) + 2 := by omega
+      obtain ⟨F1, hF1⟩ : ∃ F1, F + r.length + 1 = (F1 + 1) + (rpcChunks opts).length :=
+        ⟨F + r.length - (rpcChunks opts).length, by omega⟩
+      have hb0 := rb_opts (startLine (g || gapBefore first le0 lt (Item.rpc l i name (rpcTyStr sI aI fI rI) (rpcTyStr sO aO fO rO) opts)) L)
+        (rpcChunks opts) ho.chunks (F1 + 1)
+        (T (.sym '}') ((startLine (g || gapBefore first le0 lt (Item.rpc l i name (rpcTyStr sI aI fI rI) (rpcTyStr sO aO fO rO) opts)) L) + 1 + rpcSpan opts) ::
+          (toksOf (elemsCmds n r false (Item.rpc l i name (rpcTyStr sI aI fI rI) (rpcTyStr sO aO fO rO) opts).loc.endLine (Item.rpc l i name (rpcTyStr sI aI fI rI) (rpcTyStr sO aO fO rO) opts).typeOrder) (Item.rpc l i name (rpcTyStr sI aI fI rI) (rpcTyStr sO aO fO rO) opts).gapEnder (rdItem (Item.rpc l i name (rpcTyStr sI aI fI rI) (rpcTyStr sO aO fO rO) opts) (startLine (g || gapBefore first le0 lt (Item.rpc l i name (rpcTyStr sI aI fI rI) (rpcTyStr sO aO fO rO) opts)) L)).2 ++ rest)) []
+      rw [ho.whole, rpcBody_close', ← hF1] at hb0
+      rw [e, serviceBody_rpcOpen (F + r.length) name sI aI fI rI sO aO fO rO _ _ os ms hfI hfO hkI hkO _ _ _ hb0]
+      have e2 : F + r.length + 1 = (F + 1) + r.length := by omega
+      rw [e2, sb_rpcs r hr n false _ _ _ _ F os _ rest hrest hF']
+      have htr := trailOf_rpcOpts opts (startLine (g || gapBefore first le0 lt (Item.rpc l i name (rpcTyStr sI aI fI rI) (rpcTyStr sO aO fO rO) opts)) L)
+        (T (.sym '}') (startLine (g || gapBefore first le0 lt (Item.rpc l i name (rpcTyStr sI aI fI rI) (rpcTyStr sO aO fO rO) opts)) L + 1 + rpcSpan opts) ::
+          (toksOf (elemsCmds n r false (Item.rpc l i name (rpcTyStr sI aI fI rI) (rpcTyStr sO aO fO rO) opts).loc.endLine
+            (Item.rpc l i name (rpcTyStr sI aI fI rI) (rpcTyStr sO aO fO rO) opts).typeOrder) (Item.rpc l i name (rpcTyStr sI aI fI rI) (rpcTyStr sO aO fO rO) opts).gapEnder
+            (rdItem (Item.rpc l i name (rpcTyStr sI aI fI rI) (rpcTyStr sO aO fO rO) opts)
+              (startLine (g || gapBefore first le0 lt (Item.rpc l i name (rpcTyStr sI aI fI rI) (rpcTyStr sO aO fO rO) opts)) L)).2 ++ rest)) rfl
+      simp only [List.nil_append, htr, mkLoc_plain, mkOpts_rpc]
+      simp only [rdKids, rdItem, hne, Bool.false_eq_true, if_false, List.append_assoc, List.cons_append, List.nil_append, startLine,
+        gapBefore, Item.typeOrder, Item.gapEnder]
+      rfl
+  | .field _ :: _, h, _, _, _, _, _, _, _, _, _, _, _, _ => h.1.elim
+  | .block _ _ _ _ _ _ _ :: _, h, _, _, _, _, _, _, _, _, _, _, _, _ => h.1.elim
 
 section
 variable {x : Char} (hx : Safe x)
@@ -231,20 +349,54 @@ theorem simpleRpcs_noCh : ∀ (es : List Item) (n : Nat) (first : Bool) (le0 lt 
   | [], _, _, _, _, _ => by intro c hc; simp [elemsCmds] at hc
   | .rpc l i name inT outT opts :: r, n, first, le0, lt, h => by
     obtain ⟨⟨hl, ho, hname, ⟨sI, aI, fI, rI, hfI, hrI, hin, _⟩, ⟨sO, aO, fO, rO, hfO, hrO, hout, _⟩⟩, hr⟩ := h
-    subst ho hin hout
-    rw [elemsCmds_cons_unloc n (Item.rpc l i name (rpcTyStr sI aI fI rI) (rpcTyStr sO aO fO rO) []) r first le0 lt,
-      rpcCmds_plain n l i name _ _ hl]
-    refine CmdsNoCh.append (CmdsNoCh.append (cmdsNoCh_gapIf x _) (CmdsNoCh.append ?_ (cmdsNoCh_gap x)))
-      (simpleRpcs_noCh r n false _ _ hr)
-    apply cmdsNoCh_line
-    unfold rpcLine
-    apply noCh_ind hx
-    simp only [String.toList_append]
-    exact NoCh.append hx (NoCh.append hx (NoCh.append hx (NoCh.append hx (NoCh.append hx (NoCh.append hx (NoCh.append hx
-      (NoCh.append hx (noCh_lit hx "rpc " (by simp)) (noCh_ident hx hname)) (noCh_lit hx "(" (by simp)))
-      (noCh_rpcTyStr hx sI aI fI rI hfI hrI)) (noCh_lit hx ") returns (" (by simp)))
-      (noCh_rpcTyStr hx sO aO fO rO hfO hrO)) (noCh_lit hx ")" (by simp))) (noCh_lit hx " {}" (by simp)))
-      (noCh_lit hx "" (by simp))
+    subst hin hout
+    have hhead : ∀ tail : String, tail ∈ [" {}", " {"] → NoCh x (ind n ("rpc " ++ name ++ "(" ++ rpcTyStr sI aI fI rI ++
+        ") returns (" ++ rpcTyStr sO aO fO rO ++ ")" ++ tail ++ "")).toList := by
+      intro tail ht
+      apply noCh_ind hx
+      simp only [String.toList_append]
+      have htail : NoCh x tail.toList := by
+        simp only [List.mem_cons, List.not_mem_nil, or_false] at ht
+        rcases ht with rfl | rfl
+        · exact noCh_lit hx " {}" (by simp)
+        · exact noCh_lit hx " {" (by simp)
+      exact NoCh.append hx (NoCh.append hx (NoCh.append hx (NoCh.append hx (NoCh.append hx (NoCh.append hx (NoCh.append hx
+        (NoCh.append hx (noCh_lit hx "rpc " (by simp)) (noCh_ident hx hname)) (noCh_lit hx "(" (by simp)))
+        (noCh_rpcTyStr hx sI aI fI rI hfI hrI)) (noCh_lit hx ") returns (" (by simp)))
+        (noCh_rpcTyStr hx sO aO fO rO hfO hrO)) (noCh_lit hx ")" (by simp))) htail)
+        (noCh_lit hx "" (by simp))
+    rw [elemsCmds_cons_unloc n (Item.rpc l i name (rpcTyStr sI aI fI rI) (rpcTyStr sO aO fO rO) opts) r first le0 lt]
+    refine CmdsNoCh.append (CmdsNoCh.append (cmdsNoCh_gapIf x _) ?_) (simpleRpcs_noCh r n false _ _ hr)
+    by_cases hemp : opts.isEmpty = true
+    · have hnil : opts = [] := by simpa using hemp
+      subst hnil
+      rw [rpcCmds_plain n l i name _ _ hl]
+      refine CmdsNoCh.append ?_ (cmdsNoCh_gap x)
+      apply cmdsNoCh_line
+      exact hhead " {}" (by simp)
+    · have hne : opts.isEmpty = false := by simpa using hemp
+      rw [rpcCmds_opts n l i name _ _ opts hl hne]
+      refine CmdsNoCh.append (cmdsNoCh_line x _ (hhead " {" (by simp))) (CmdsNoCh.append ?_
+        (CmdsNoCh.append (cmdsNoCh_endl x _ (noCh_ind hx n "}" (noCh_lit hx "}" (by simp)))) (cmdsNoCh_gap x)))
+      rw [rpcOptCmds_indent]
+      intro c hc
+      simp only [List.mem_map] at hc
+      obtain ⟨c0, hc0, rfl⟩ := hc
+      simp only [rpcCmds0, List.mem_flatten, List.mem_map] at hc0
+      obtain ⟨cs, ⟨o, ho', rfl⟩, hmem⟩ := hc0
+      simp only [optionCmds, List.mem_map] at hmem
+      obtain ⟨ln, hln, rfl⟩ := hmem
+      simp only [Cmd.indent]
+      have hl' : ln ∈ optLines0 opts := by
+        simp only [optLines0, List.mem_flatten, List.mem_map]
+        exact ⟨_, ⟨o, ho', rfl⟩, hln⟩
+      have := ho.noch ln hl'
+      rcases hx.only with h2 | h2
+      · left
+        apply noCh_ind hx
+        intro ch hch hcx
+        exact this.1 ch hch (hcx.trans h2)
+      · exact Or.inr ⟨h2, tokLine_ind_of_ok _ ln this.2⟩
   | .field _ :: _, _, _, _, _, h => h.1.elim
   | .block _ _ _ _ _ _ _ :: _, _, _, _, _, h => h.1.elim
 
@@ -286,6 +438,15 @@ theorem topLevel_service_step (F : Nat) (name : String) (s : Nat) (r : List PTok
   rw [topLevel]
   rfl
 
+theorem need1_le_needAll (e : Item) : ∀ (es : List Item), e ∈ es → need1 e ≤ needAll es
+  | [], h => by simp at h
+  | x :: r, h => by
+    simp only [needAll]
+    rcases List.mem_cons.mp h with rfl | h
+    · omega
+    · have := need1_le_needAll e r h
+      omega
+
 theorem top_service : ∀ (e : Item), SimpleService e → ∀ (s G : Nat) (a : Acc) (more : List PTok),
     trailOf more = "" → need1 e ≤ G →
     topLevel (G + 1) (itemToks 0 e s ++ more) a = topLevel G more { a with items := a.items ++ [(rdItem e s).1] }
@@ -320,7 +481,8 @@ theorem top_service : ∀ (e : Item), SimpleService e → ∀ (s G : Nat) (a : A
         (toksOf (elemsCmds (0 + 1) kids true 0 0) (!opts.isEmpty) (s + 1 + optSpan opts) ++
           T (.sym '}') (rdKids kids true 0 0 (s + 1 + optSpan opts) (!opts.isEmpty)).2 :: more) [] []
       rw [ho.whole] at hopts
-      rw [hGe, hopts, sb_rpcs kids hk 1 true 0 0 (s + 1 + optSpan opts) (!opts.isEmpty) F' _ [] _, serviceBody_close]
+      rw [hGe, hopts, sb_rpcs kids hk 1 true 0 0 (s + 1 + optSpan opts) (!opts.isEmpty) F' _ [] _ rfl
+        (fun e he => by have := need1_le_needAll e kids he; omega), serviceBody_close]
       have hmk := mkOpts_block opts s
       unfold optRaws0 at hmk
       simp only [List.nil_append, htr, mkLoc_plain, hmk]
